@@ -426,28 +426,32 @@ def tab_implicit(p, res):
         if k != k.lower():
             res.bad(F('TAB-IMPLICIT', m, 'markup.implicit_tag.ELEMENT_MAP', node, 'ELEMENT_MAP key %r' % k, 'key is not lower-case but the lookup key is lower-cased'))
     f = p.func('markup.implicit_tag.resolve_implicit_tag')
-    stores = [n for n in f.body_nodes() if isinstance(n, ast.Assign) and any(src_of(t) == 'node.name' for t in n.targets)]
-    if len(stores) != 1:
-        raise AnalysisError('TAB-IMPLICIT: resolve_implicit_tag has %d stores to node.name' % len(stores))
-    v = stores[0].value
-    ok = False
-    if isinstance(v, ast.Call) and isinstance(v.func, ast.Attribute) and v.func.attr == 'get' and src_of(v.func.value) == 'ELEMENT_MAP' and len(v.args) == 2:
-        key, default = v.args
-        if isinstance(default, ast.IfExp) and p.try_const(f, default.body) == 'span' and p.try_const(f, default.orelse) == 'div' \
-                and isinstance(default.test, ast.Call) and src_of(default.test.func) == 'is_inline' and default.test.args \
-                and src_of(default.test.args[0]) == src_of(key):
-            ok = True
-            # key is lower-cased parent name or context name
-            kvals = p.local_assignments(f, key.id) if isinstance(key, ast.Name) else []
-            if not (len(kvals) == 1 and kvals[0] is not None and src_of(kvals[0]).startswith('lowercase(')
-                    and 'parent.name if parent else' in src_of(kvals[0])):
-                ok = False
-    if ok:
-        res.ok("node.name = ELEMENT_MAP.get(lower(parent), 'span' if is_inline(parent) else 'div')")
-    else:
-        # fall back to decision-table extraction on a few parents
-        res.bad(F('TAB-IMPLICIT', f.module, f.short, stores[0], src_of(stores[0]),
-                  "implicit name must be ELEMENT_MAP.get(<lower-cased parent name>, 'span' if is_inline(<same>) else 'div')"))
+    # complete decision table over the documented parents (and a few others): extracted from the syntax tree
+    node_cls = p.cls('abbreviation.convert.AbbreviationNode')
+    abbr_cls = p.cls('abbreviation.convert.Abbreviation')
+    cfg_cls = p.cls('config.Config')
+    cm0 = p.module('config')
+    _, _, dflt = _const_lenient(p, cm0, 'DEFAULT_OPTIONS')
+    inline = p.try_const(cm0, dflt.get('inlineElements'), default=[])
+    ev = MiniEval(p, hooks={'emmet.config.Config.get': lambda self, key: self.get(key)})
+    parents = {'ul': 'li', 'ol': 'li', 'table': 'tr', 'tbody': 'tr', 'thead': 'tr', 'tfoot': 'tr', 'tr': 'td', 'select': 'option', 'optgroup': 'option',
+               'p': 'span', 'span': 'span', 'a': 'span', 'em': 'span', 'strong': 'span', 'b': 'span', 'label': 'span',
+               'div': 'div', 'section': 'div', 'li': 'div', 'td': 'div', 'body': 'div', 'UL': 'li', 'Table': 'tr', 'SPAN': 'span', None: 'div'}
+    for parent, want in parents.items():
+        for ctx_name in (None, 'ul'):
+            node = Rec(__class__=node_cls, name=None, attributes=[1])
+            root = Rec(__class__=abbr_cls, children=[])
+            anc = [root] + ([Rec(__class__=node_cls, name=parent)] if parent is not None else [])
+            cfg = Rec(__class__=cfg_cls, options={'inlineElements': inline}, context=({'name': ctx_name} if ctx_name else None))
+            ev.call(f, [node, anc, cfg])
+            exp = want
+            if parent is None and ctx_name == 'ul':
+                exp = 'li'          # no parent element: the editor context supplies the parent name
+            if node['name'] != exp:
+                res.bad(F('TAB-IMPLICIT', f.module, f.short, f.node, 'parent=%r context=%r -> %r' % (parent, ctx_name, node['name']),
+                          'implicit name inside <%s> must be %r (table entry first, then span inside inline elements, div otherwise)' % (parent, exp)))
+            else:
+                res.ok('parent=%r context=%r -> %r' % (parent, ctx_name, exp))
     # the guard: only elements without a name but with attributes get an implicit name
     g = p.func('markup.implicit_tag.implicit_tag')
     ifs = [n for n in g.body_nodes() if isinstance(n, ast.If)]
@@ -472,7 +476,7 @@ def tab_implicit(p, res):
                       '<%s> is a block element' % name))
         else:
             res.ok()
-    res.require_floor(25)
+    res.require_floor(60)
 
 
 # ---------------------------------------------------------------- TAB-UNITS
